@@ -19,7 +19,7 @@ func init() {
 	Register(&Rule{
 		ID:    "R-APPENDONLY",
 		Doc:   "in every json encoder function (encoder methods, encodeFunc closures, Append and the append* helpers they pass the buffer to): the destination is written only by append / append-style callees, or by index/copy/Encode at an offset with lower bound len(dst)+k, k>=0; every reslice b[:k] has k >= a len(dst) snapshot",
-		Props: []string{"C15"},
+		Props: []string{"C15", "C10"},
 		Min:   map[string]int{"C15": 40},
 		Run:   runAppendOnly,
 	})
@@ -423,6 +423,12 @@ func runAppendOnly(c *core.Ctx) []core.Obligation {
 			}
 			if !a.v[r.Results[0]] {
 				any = true
+				if prm, isP := r.Results[0].(*ssa.Parameter); isP && strings.HasPrefix(name, "json.") {
+					// another parameter handed back as the result: memory the function was lent
+					// (a RawMessage, a Marshaler's output) becomes the encoder's buffer
+					b.addP([]string{"C15", "C10"}, core.Violation, mk("return"), c.InstrPos(r), fmt.Sprintf("%s returns its parameter %s instead of the destination: the caller's prefix is lost, and memory the function was only lent (a RawMessage, the output of a MarshalJSON) becomes the buffer the encoder goes on appending to, returns from Append and recycles through its pool", name, prm.Name()))
+					continue
+				}
 				b.bad(mk("return"), c.InstrPos(r), fmt.Sprintf("%s returns %s instead of the destination: the caller's prefix is lost (on the error path Append must still return a slice that begins with b's bytes)", name, describeValue(r.Results[0])))
 			}
 		}
